@@ -111,7 +111,7 @@ def check(run):
                                        nops=rng.randrange(1, 40), maxes=[1, 3, 50]) for _ in range(300 if quick else 10000)]
         res = E.run_sessions(run, sessions, need_lean=False)
         for s, r in zip(sessions, res):
-            run.case(s[0][:200], True)
+            run.case(s[0][:200], True, key=s[0])
             E.record_failures(run, s, E.judge_files(s, r, tag="e2e"), seen)
     finally:
         shutil.rmtree(tmp, ignore_errors=True)
